@@ -134,8 +134,8 @@ pub fn gen(rng: &mut Rng, focus: EFocus) -> E2eScn {
     let mut calls = Vec::new();
     for _ in 0..n_calls {
         let deadline_ms = match focus {
-            EFocus::Deadlines => *rng.pick(&[0i64, 1, 5, 20, 20, 50, 200, 1000]),
-            _ => *rng.pick(&[5i64, 50, 200, 1000, 1000, 10_000]),
+            EFocus::Deadlines => *rng.pick(&[0i64, 1, 5, 20, 20, 50, 200, 1000, 11_000, 45_000]),
+            _ => *rng.pick(&[5i64, 50, 200, 1000, 1000, 10_000, 60_000]),
         };
         let abandon = if rng.chance(match focus {
             EFocus::Cascade => 800,
@@ -763,7 +763,11 @@ pub fn check(scn: &E2eScn, log: &[Ev], sim: &Sim, horizon_reached: bool) -> Vec<
                     }
                 }
             }
-            if let Some(hd) = handlers.get(&((h + 1) as u8, tag)) {
+            // the handler has to go once the cancel for its request is on the wire (when no cancel
+            // is owed — reply seen, or the deadline expired at the sender, whose clock and transit
+            // time differ from the receiver's — the receiver's own deadline ends it: C06)
+            let cancel_sent = reqs[h].get(&tag).and_then(|r| r.cancel).map(|c| c.0 < iseq).unwrap_or(false);
+            if let Some(hd) = handlers.get(&((h + 1) as u8, tag)).filter(|_| cancel_sent) {
                 if let Some((s, _)) = hd.start {
                     if s < iseq && !hd.end.map(|e| e.0 < iseq).unwrap_or(false) && hd.deadline > it {
                         v.push(viol("C04", "cascade-incomplete", &["handler-alive"], format!("call {tag} abandoned at seq {a}: handler at node {} still alive at idle seq {iseq}", h + 1)));
